@@ -34,6 +34,15 @@ pub fn unescape_field(s: &str) -> String {
 }
 
 fn main() {
+    // deep SimpleSL recursion needs a deep Rust stack; the monitor's fuel ends runaway recursion
+    let worker = std::thread::Builder::new()
+        .stack_size(1 << 30)
+        .spawn(real_main)
+        .expect("spawn worker");
+    let _ = worker.join();
+}
+
+fn real_main() {
     panic::set_hook(Box::new(|info| {
         let loc = info
             .location()
